@@ -30,6 +30,17 @@ fn grammar(names: &[&'static str], max_n: usize) -> Grammar {
         }
     }
     leaves.push(Stmt::Include { name: Expr::s("p"), args: vec![] });
+    // two arguments whose expressions read each other's names: every argument is evaluated in the scope of the tag,
+    // none of them sees a sibling (in either order)
+    if names.len() >= 2 {
+        for (n1, n2) in [(names[0], names[1]), (names[1], names[0])] {
+            for a in &names[..2] {
+                for b in &names[..2] {
+                    leaves.push(Stmt::Include { name: Expr::s("p"), args: vec![(n1.to_string(), Expr::var(a)), (n2.to_string(), Expr::var(b))] });
+                }
+            }
+        }
+    }
     let mut compounds: Vec<Wrap> = Vec::new();
     for n in names {
         let n1 = n.to_string();
